@@ -224,8 +224,12 @@ impl<'l, Data> LoopHandle<'l, Data> {
                     source = entry_token.get_id(),
                     "Can't update registration withing a callback, storing for later."
                 );
-                // we are in a callback, store for later processing
-                self.inner.pending_action.set(PostAction::Reregister);
+                // we are in a callback, store for later processing. A disable the source already
+                // requested on itself in this callback stands: `disable()` has returned `Ok`, and
+                // the source is registered afresh when it is enabled again anyway.
+                if self.inner.pending_action.get() != PostAction::Disable {
+                    self.inner.pending_action.set(PostAction::Reregister);
+                }
             }
             Ok(())
         } else {
